@@ -71,8 +71,14 @@ def check_obligations(pid, timeout=900):
     src = props_file(pid)
     text = open(src).read()
     theorems = [m.group(2) for m in THM_RE.finditer(text)]
-    ok, log = make([pid + "/Lemmas.vo"] if os.path.exists(os.path.join(COQ, pid, "Lemmas.v"))
-                   else [pid + "/Model.vo"])
+    targets = [pid + "/" + f[:-2] + ".vo" for f in ("Model.v", "Lemmas.v", "Findings.v")
+               if os.path.exists(os.path.join(COQ, pid, f))]
+    # Props.v may import other properties' files (e.g. C16 reuses C18's Welford lemmas)
+    for m in re.finditer(r"\b(C\d\d)\.(Model|Lemmas|Findings)\b", text):
+        t = "%s/%s.vo" % (m.group(1), m.group(2))
+        if t not in targets and os.path.exists(os.path.join(COQ, t[:-1])):
+            targets.append(t)
+    ok, log = make(targets)
     if not ok:
         return dict(ok=False, theorems=theorems, assumptions={}, log=log, wall_s=0.0,
                     failed="make of %s dependencies" % pid)
